@@ -29,6 +29,7 @@ def run(ctx):
     fingerprint_helpers(ctx, "R2")
     stems_variants(ctx, "R3")
     get_hostname(ctx, "R4")
+    U.netloc_template(ctx, "R5")
 
 
 def host_helpers(ctx, rule, n):
@@ -204,19 +205,36 @@ def get_hostname(ctx, rule):
     gh = repo.mod("get_hostname")
     ref = gh.func("get_hostname")
     ctx.fn(ref.qualname)
-    ex = P.Extractor(repo, atomic={"ural.utils.safe_urlsplit"})
+    # both sides with safe_urlsplit expanded: get_hostname's value is `.hostname` of what safe_urlsplit(url) computes
+    ex = P.Extractor(repo, atomic=set())
     rets = ex.function(ref)
     site = gh.site(ref.node)
     normal = [r for r in rets if r.kind == "return" and not any(c[0] == "raises" for c, pol in r.conds)]
     exc = [r for r in rets if r.kind == "return" and any(c[0] == "raises" for c, pol in r.conds)]
+    sref = repo.mod("utils").func("safe_urlsplit")
+    want = P.strip_inl(("attr", ex.result_term(ex.function(sref, [("param", "url"), ("const", "http")], {})), "hostname"))
+    want = F.resolve_under(want, lambda c: None)
     ok = False
-    for r in normal:
-        t = r.term
+    got = None
+    for r in [Rt for Rt in [normal] if Rt]:
+        t = P.strip_inl(ex.result_term(r))
         if t[0] == "bool" and t[1] == "or":
             t = t[2][0]
-        if t[0] == "attr" and t[2] == "hostname" and t[1][0] == "call" and t[1][1] == "ural.utils.safe_urlsplit" and t[1][2] and t[1][2][0] == ("param", "url"):
-            ok = True
-    ctx.ob(rule, "get_hostname/is-parser-hostname", ok, "get_hostname is not safe_urlsplit(url).hostname", site)
+        got = t
+        ok = _same_modulo_attr_phi(t, want)
+    ctx.ob(rule, "get_hostname/is-parser-hostname", ok, "get_hostname is not safe_urlsplit(url).hostname: %s" % (P.show(got, maxdepth=5) if got else "no value"), site)
     ctx.ob(rule, "get_hostname/ValueError-None", bool(exc) and all(r.term == ("const", None) for r in exc), "get_hostname does not map ValueError to None", site, witness="http://[::1/x")
     # safe_urlsplit: adds a scheme iff PROTOCOL_RE does not match
     U.rule_safe_urlsplit(ctx, rule)
+
+
+def _push_attr(t):
+    """attr(phi(c, a, b), n) == phi(c, attr(a, n), attr(b, n)); applied top-down so both spellings meet"""
+    if t[0] == "attr" and t[1][0] == "phi":
+        c, a, b = t[1][1], t[1][2], t[1][3]
+        return ("phi", c, _push_attr(("attr", a, t[2])), _push_attr(("attr", b, t[2])))
+    return t
+
+
+def _same_modulo_attr_phi(a, b):
+    return _push_attr(a) == _push_attr(b)
